@@ -234,6 +234,8 @@ struct Search {
 impl Search {
     fn run_history(&mut self, family: &'static str, progs: &[String]) {
         self.histories += 1;
+        // (a native stack overflow aborts the process: leave a trace of what was running)
+        eprintln!("@@HIST {}", jarr(progs));
         let h = history(progs, 0);
         self.evals += progs.len();
         let e = self.fam.entry(family).or_insert((0, 0));
